@@ -28,6 +28,7 @@ from pathlib import Path
 from typing import Any
 
 N_CHUNKS = 8
+INT_ONLY_PREFIXES = ("aten::bitwise_", "aten::__lshift__", "aten::__rshift__")
 
 # ----------------------------------------------------------------------------- ATen schema text
 
@@ -302,6 +303,10 @@ def load(record_warnings: bool = True) -> dict:
                 schema_text = "torchvision is not installed"
             else:
                 res = "undefined"
+        if aten is not None and q.startswith(INT_ONLY_PREFIXES):
+            # Scalars of the bitwise / shift operators are integers by the operator's meaning
+            for x in aten["positional"] + aten["kwonly"]:
+                x["intScalar"] = x["base"] == "scalar"
         rows.append(
             {
                 "qualified": q,
@@ -337,7 +342,8 @@ def lbool(b: bool) -> str:
 
 
 def lean_aarg(a: dict) -> str:
-    return f"⟨{lstr(a['name'])}, .{a['base']}, {lbool(a['isList'])}, {lbool(a['optional'])}, {lbool(a['hasDefault'])}⟩"
+    return (f"⟨{lstr(a['name'])}, .{a['base']}, {lbool(a['isList'])}, {lbool(a['optional'])}, {lbool(a['hasDefault'])}, "
+            f"{lbool(a.get('intScalar', False))}⟩")
 
 
 def lannot(a: str) -> str:
@@ -364,7 +370,8 @@ def lean_row(r: dict) -> str:
         f"  -- {r['qualified']}\n"
         f"  ⟨{lcodes(r['qualified'])}, {lbool(r['isComplex'])}, {mode}, .{r['res']},\n"
         f"   ⟨[{pos}], [{kw}]⟩,\n"
-        f"   [{sig}]⟩"
+        f"   [{sig}],\n"
+        f"   {lcodes(r['func'])}⟩"
     )
 
 
